@@ -111,11 +111,13 @@ func runLBAdmin(x *X) {
 		net.add(fmt.Sprintf("host%d", i), hostOf(i), "")
 	}
 	// the stub registry is keyed by host; several names may point at one host
-	init0 := []config.BackendConfig{{Name: "perm", Address: "http://" + hostOf(0), Weight: 1}}
+	// weights with and without common divisors (a strategy may normalise its own copy, never what is listed)
+	wPalette := []int{1, 2, 3, 4, 6, 2, 4, 5}
+	init0 := []config.BackendConfig{{Name: "perm", Address: "http://" + hostOf(0), Weight: wPalette[c.Intn(len(wPalette), "w-perm")]}}
 	nInit := c.Intn(3, "ninit")
 	names := []string{"a", "b", "c"}
 	for i := 0; i < nInit; i++ {
-		init0 = append(init0, config.BackendConfig{Name: names[i], Address: "http://" + hostOf(i+1), Weight: 1 + c.Intn(3, "w")})
+		init0 = append(init0, config.BackendConfig{Name: names[i], Address: "http://" + hostOf(i+1), Weight: wPalette[c.Intn(len(wPalette), "w")]})
 	}
 	onErr := func(e *simrt.SchedError) { x.Violate("C12", "C12/"+e.Kind+"{lbadmin}", "%s", e.Error()) }
 	var h *lbHarness
@@ -191,7 +193,7 @@ func runLBAdmin(x *X) {
 		badStrats := []string{"random", "", "ROUND_ROBIN", "least-connections"}
 		switch c.Pick([]int{5, 4, 2, 3}, "adminop") {
 		case 0:
-			in := adminIn{Op: "add", Name: names[c.Intn(3, "name")], Addr: "http://" + hostOf(1+c.Intn(6, "host")), Weight: c.Intn(4, "w")}
+			in := adminIn{Op: "add", Name: names[c.Intn(3, "name")], Addr: "http://" + hostOf(1+c.Intn(6, "host")), Weight: append([]int{0}, wPalette...)[c.Intn(len(wPalette)+1, "w")]}
 			switch c.Intn(8, "addbad") {
 			case 6:
 				in.Addr = badAddrs[c.Intn(len(badAddrs), "badaddr")]
